@@ -1,8 +1,8 @@
-import AFV.Driver.Proto
+import AFV.Driver.SetsCommon
 namespace AFV.Driver.C22
 open Lean AFV.Proto
 
-/-- Handler for property C22 requests (stub: not implemented yet). -/
-def handle (_req : Json) : Json := err "unimplemented"
+/-- C22 requests: see `AFV.Driver.SetsCommon` (op "case"). -/
+def handle (req : Json) : Json := SetsCommon.handle req
 
 end AFV.Driver.C22
